@@ -8,6 +8,7 @@ fn main() {
     let args = pv::util::parse_args(&argv[2..]);
     match argv[1].as_str() {
         "c11" => pv::c11::run(&args),
+        "c09" => pv::c09::run(&args),
         other => {
             eprintln!("unknown runner {other}");
             std::process::exit(2);
